@@ -310,3 +310,19 @@ Example C17_wire_valsets_refuted_f85 :
   valset_from_existing_f85 [ex_wval max_total_voting_power; ex_wval 1] = DPanic /\
   valset_from_proto_f85 {| ws_vals := [ex_wval 9223372036854775807; ex_wval (-1); ex_wval 3]; ws_proposer := Some (ex_wval 3) |} = DPanic.
 Proof. vm_compute. repeat split. Qed.
+
+(* the same for the evidence that carries such a set: with the second half of the repair (a
+   conflicting block WITHOUT signed header is an error, not a nil dereference) the decoder of
+   light-client-attack evidence never panics, whatever the validator set and header presence *)
+Theorem C17_wire_evidence_no_panic :
+  forall (ws : wvalset) (sh : N), lcae_from_proto ws sh <> DPanic.
+Proof. exact lcae_from_proto_no_panic. Qed.
+Print Assumptions C17_wire_evidence_no_panic.
+
+Example C17_wire_evidence_refuted_f85 :
+  let good := {| ws_vals := [ex_wval 10; ex_wval 20]; ws_proposer := Some (ex_wval 10) |} in
+  let above := {| ws_vals := [ex_wval max_total_voting_power; ex_wval 1]; ws_proposer := Some (ex_wval 1) |} in
+  lcae_from_proto_f85 good 0 = DPanic /\ lcae_from_proto good 0 = DErr /\
+  lcae_from_proto_f85 above 1 = DPanic /\ lcae_from_proto above 1 = DErr /\
+  lcae_from_proto_f85 above 2 = DErr.
+Proof. vm_compute. repeat split. Qed.
